@@ -260,6 +260,33 @@ def sample(ctx, budget=1.0, hint=None, broken=None):
                 fail('d/not-equal/absolute', 'absolute form does not compare equal', {'path': desc, 'd': d}, repr(back)[:200], desc[:200], rep)
         if len(samples) < 3:
             samples.append({'path': desc[:300], 'd': path.d()[:200]})
+    # chains of smooth joints with generic float coordinates: the S/T decision and the parser must agree to the last bit
+    for it in range(int(ctx.n(40, 400) * budget)):
+        kind = r.choice(['cubic', 'quad'])
+        cur = complex(r.uniform(-100, 100), r.uniform(-100, 100))
+        segs = []
+        for j in range(8):
+            end = complex(r.uniform(-100, 100), r.uniform(-100, 100))
+            if kind == 'cubic':
+                c2 = complex(r.uniform(-100, 100), r.uniform(-100, 100))
+                c1 = (cur + (cur - segs[-1].control2)) if segs else complex(r.uniform(-100, 100), r.uniform(-100, 100))
+                segs.append(P.CubicBezier(cur, c1, c2, end))
+            else:
+                c = (cur + (cur - segs[-1].control)) if segs else complex(r.uniform(-100, 100), r.uniform(-100, 100))
+                segs.append(P.QuadraticBezier(cur, c, end))
+            cur = end
+        path = P.Path(*segs)
+        n_eval += 1
+        nontriv.add(('smooth-chain', kind))
+        with warnings.catch_warnings():
+            warnings.simplefilter('ignore')
+            d = path.d(useSandT=True)
+            back = spt.parse_path(d)
+        if back != path:
+            desc = repr(path).replace('\n', ' ')
+            fail('d/point (absolute form)/useSandT smooth chain', 'absolute form with S/T shorthand does not compare equal after the round trip',
+                 {'path': desc[:600], 'd': d[:300]}, repr(back)[:200], desc[:200],
+                 'svgpathtools.parse_path(svgpathtools.%s.d(useSandT=True)) == svgpathtools.%s' % (desc, desc))
     return {'evaluations': n_eval * 8, 'distinct_nontrivial': len(nontriv), 'failures': fails, 'samples': samples,
             'rule': 'random paths (1-3 subpaths; open / closed by a line / closed by a curve / revisiting the start; smooth joints built with the '
                     'parser\'s expression and with a differently rounded one; arcs incl. auto-enlarged radii and rotations outside [0,360); number '
